@@ -560,3 +560,49 @@ func runHistoryReal(hist string) string {
 func init() {
 	replayers["tmpl.hist"] = func(a []string) string { return runHistoryReal(a[0]) }
 }
+
+// histBuilder builds a history step by step while running it against the real package, so that the
+// generator can react to results (e.g. only use handles that were really bound).
+type histBuilder struct {
+	names map[int]string
+	lines []string
+	res   []string
+	w     *realWorld
+	dead  bool
+}
+
+func newHistBuilder() *histBuilder {
+	return &histBuilder{names: map[int]string{}, w: &realWorld{h: map[int]*template.Template{}}}
+}
+
+// add appends a step; returns its real result ("" if the step could not be serialised).
+func (hb *histBuilder) add(s Step) string {
+	switch s.Op {
+	case "new":
+		hb.names[s.H] = s.Name
+	case "assocnew", "lookup":
+		hb.names[s.H2] = s.Name
+	case "clone":
+		hb.names[s.H2] = hb.names[s.H]
+	case "parse":
+		s.Name = hb.names[s.H]
+	}
+	l, err := s.line()
+	if err != nil {
+		return ""
+	}
+	hb.lines = append(hb.lines, l)
+	r := "skipped"
+	if !hb.dead {
+		r = withWatchdog(func() string { return hb.w.step(l) })
+		if r == "panic" || r == "timeout" {
+			hb.dead = true
+		}
+	}
+	hb.res = append(hb.res, r)
+	return r
+}
+
+func (hb *histBuilder) bound(h int) bool { return hb.w.h[h] != nil }
+func (hb *histBuilder) hist() string     { return strings.Join(hb.lines, "\n") }
+func (hb *histBuilder) result() string   { return strings.Join(hb.res, ";") }
